@@ -154,6 +154,15 @@ Theorem rule_convex_conj_sound : forall n (f fs : list R -> option R) (w : list 
 Proof. exact rule_moreau. Qed.
 Print Assumptions rule_convex_conj_sound.
 
+(* ... hence FunctionalDefaultConvexConjugate(f).proximal is right for EVERY well-formed tree f: *)
+Theorem prox_tree_default_convex_conj : forall (e : @fexpr R) (fs : list R -> option R) (sigma : R) (x : list R),
+  wf e -> 0 < sigma -> length x = fdim e ->
+  is_conj (fdim e) (fweights e) (fval e) fs ->
+  exists p, prox_convex_conj (fprox e) (SScal sigma) x = Ok p /\
+            is_proxs (fdim e) fs (metric (fweights e) (repeat sigma (fdim e))) x p.
+Proof. exact fprox_default_convex_conj. Qed.
+Print Assumptions prox_tree_default_convex_conj.
+
 (* the pair used by IndicatorLpUnitBall(2).proximal = proximal_convex_conj(proximal_l2): the conjugate of the
    norm of the weighted space is the indicator of its unit ball (weighted Cauchy-Schwarz) *)
 Theorem norm_ball_conjugate_pair : forall n (w : list R), allpos w -> length w = n ->
